@@ -205,3 +205,48 @@ func TestSleepAndQuiescent(t *testing.T) {
 		t.Fatalf("%v %v", o, r.Violations)
 	}
 }
+
+// The state cache must not change the set of observable outcomes.
+func TestCacheSoundOnToy(t *testing.T) {
+	mk := func(nocache bool) *vs.Scenario {
+		return &vs.Scenario{Name: "toy3", NoCache: nocache, Bounds: vs.Bounds{P: -1}, Body: func() {
+			var x, y int32
+			var mu vsync.Mutex
+			ch := make(chan int32, 1)
+			var wg vsync.WaitGroup
+			for i := int32(1); i <= 3; i++ {
+				i := i
+				wg.Add(1)
+				vs.Go(func() {
+					defer wg.Done()
+					v := vatomic.LoadInt32(&x)
+					mu.Lock()
+					y = y*2 + i
+					mu.Unlock()
+					vatomic.StoreInt32(&x, v+i)
+					switch vs.Select(true, vs.SendCase(ch, i)) {
+					case 0:
+						vs.SelSend(ch, i)
+					}
+				})
+			}
+			wg.Wait()
+			vs.Observe("x=%d y=%d ch=%d", x, y, vs.Recv[int32](ch))
+		}}
+	}
+	a := vs.Explore(mk(true), 0, 1)
+	b := vs.Explore(mk(false), 0, 1)
+	oa, ob := outcomes(a), outcomes(b)
+	if len(oa) != len(ob) {
+		t.Fatalf("outcome sets differ: nocache=%d cache=%d", len(oa), len(ob))
+	}
+	for k := range oa {
+		if ob[k] == 0 {
+			t.Fatalf("cache lost outcome %s", k)
+		}
+	}
+	t.Logf("nocache exec=%d, cache exec=%d pruned=%d states=%d, outcomes=%d", a.Executions, b.Executions, b.Pruned, b.States, len(oa))
+	if b.Executions >= a.Executions {
+		t.Fatalf("cache did not reduce the search")
+	}
+}
